@@ -69,6 +69,9 @@ type Job struct {
 	Groups [][]int // times per group, non-decreasing
 	Mode   int     // 0 round robin by position, 1 seeded random merge, 2 stable sort by time
 	Idx    int     // global job number (seeds the merge)
+	// Kind "delete": the points of every phase in write order; between two phases the
+	// driver waits until every group has been deleted at the window node (delete.go)
+	Phases [][]DelWrite
 }
 
 type ref struct{ g, i int }
@@ -133,6 +136,9 @@ type worker struct {
 	seed  int64
 	tasks int
 	pts   int
+	// delete jobs: traces written, task attempts thrown away as inconclusive (timing guard)
+	delTraces    int
+	inconclusive int
 }
 
 func newWorker(r *rt.Run, name string) (*worker, error) {
@@ -149,6 +155,10 @@ const chunk = 4000
 
 // run executes one job on the real TaskMaster and writes one trace per group.
 func (w *worker) run(j *Job) {
+	if j.Kind == "delete" {
+		w.runDelete(j)
+		return
+	}
 	w.tasks++
 	id := fmt.Sprintf("c03_%d", j.Idx)
 	d := w.env.Diag
